@@ -20,6 +20,7 @@ fn outcomes<V: Variant>(g: &V::G) -> Vec<Result<Parts, GeneratorError>> {
         .collect()
 }
 
+
 fn show(r: &Result<Parts, GeneratorError>) -> String {
     match r {
         Ok(p) => format!("Ok({})", crate::json::hex(&p.bytes())),
